@@ -24,6 +24,7 @@ import (
 	"github.com/ysugimoto/falco/v2/interpreter/context"
 	"github.com/ysugimoto/falco/v2/linter"
 	"github.com/ysugimoto/falco/v2/resolver"
+	"github.com/ysugimoto/falco/v2/snippet"
 )
 
 type decorProgram struct {
@@ -102,7 +103,12 @@ func simulate(src string) (o *simObs) {
 			o.Crash = fmt.Sprint(r)
 		}
 	}()
-	ip := interpreter.New(context.WithResolver(resolver.NewStaticResolver("main", src)))
+	// scoped snippets are configured, so that the expansion of #FASTLY macros is observable
+	snips := &snippet.Snippets{ScopedSnippets: snippet.ScopedSnippets{
+		"recv":    {{Name: "s-recv", Priority: 100, Data: `log "snip-recv";`}},
+		"deliver": {{Name: "s-deliver", Priority: 100, Data: `log "snip-deliver";`}},
+	}}
+	ip := interpreter.New(context.WithResolver(resolver.NewStaticResolver("main", src)), context.WithSnippets(snips))
 	ip.Debugger = quietDebugger{}
 	rec := httptest.NewRecorder()
 	req := httptest.NewRequest("GET", "http://localhost/x", nil)
@@ -194,12 +200,17 @@ func c09Replay(args []string) int {
 		out.Write(res)
 		for di, d := range p.Decors {
 			for _, lay := range p.Lays {
+				// layouts: 0 canonical, 1 seeded blank lines / tabs / line breaks, 2 CRLF line ends, 3 tabs between tokens
 				l := &layout{}
 				if lay == 1 {
 					l.rng = rand.New(rand.NewSource(seed*1000003 + int64(nprog)*7919 + int64(di)))
 				}
+				l.tabs = lay == 3
 				src, _ := render(toks, d, l)
 				src = concretize(src)
+				if lay == 2 {
+					src = strings.ReplaceAll(src, "\n", "\r\n")
+				}
 				h := sha1.Sum([]byte(p.Name + "\x00" + src))
 				id := hex.EncodeToString(h[:6])
 				var gl, gm, gn []string
